@@ -7,6 +7,7 @@ WIP = "contracts not completed yet in this build (see DESIGN.md section 12); not
 
 # id -> (claimed, level, text, note, technique, design_ref)
 P = {
+ "C05": (True, "proof", "Kani proves each SpanGuard operation contract from an arbitrary abstract pre-state (induction over operation sequences), loop-free over full-domain symbolic inputs, on the real crate", "trusted: CBMC/Kani; panic unwinding not modelled (panic=abort); macro expansion of #[span] not covered", "contract-based deductive verification (Kani per-operation contracts from symbolic pre-states; Verus for completion event shape)", "8 C05"),
  "C15": (True, "proof",
          "Verus proves, for every input, the contracts of the real calendar/format/parse functions extracted from /repo on each run; "
          "a code change that breaks a contract fails a named obligation",
